@@ -2,6 +2,7 @@ import SlotVerif.Model.SnapInv
 import SlotVerif.Model.Extract
 import SlotVerif.Model.Analysis
 import SlotVerif.Model.Match
+import SlotVerif.Model.EMatch
 import SlotVerif.Driver.Codec
 /-! `snap` protocol (C08/C09/C05): `snap <sig>;<snapshot lines joined by ~>;<query>;<query>...` -/
 namespace SV.Drv
@@ -87,6 +88,60 @@ def parseSubst (s : String) : MPat.Subst :=
     | [v, a] => some (v, parseApp a)
     | _ => none
 
+/-! ### canonical rendering of match lists (the same procedure as `canon_matches` in the harness) -/
+
+mutual
+def patSlots : MPat → List Nat
+  | .pvar _ => []
+  | .node n cs => Node.allOcc n ++ patSlotsL cs
+def patSlotsL : List MPat → List Nat
+  | [] => []
+  | p :: ps => patSlots p ++ patSlotsL ps
+end
+
+/-- render the entries of an argument map; fresh slots (not pattern slots) are numbered by first appearance, continuing `num` -/
+def renderArgs (pslots : List Nat) (m : SlotMap) (num : List Nat) : String × List Nat :=
+  let (parts, num') := m.foldl (fun (acc : List String × List Nat) p =>
+    if pslots.contains p.2 then (acc.1 ++ [s!"{p.1}>p{p.2}"], acc.2)
+    else match acc.2.idxOf? p.2 with
+      | some i => (acc.1 ++ [s!"{p.1}>F{i}"], acc.2)
+      | none => (acc.1 ++ [s!"{p.1}>F{acc.2.length}"], acc.2 ++ [p.2])) ([], num)
+  ("|".intercalate parts, num')
+
+def strLt (a b : String) : Bool := a < b
+
+/-- one match: variables in name order; each invocation is replaced by the member of its symmetry orbit whose rendering
+is smallest (the matcher may return any of them) -/
+def canonMatch (s : Snap) (pslots : List Nat) (σ : List (String × AppId)) : String :=
+  let sorted := σ.foldl (fun (acc : List (String × AppId)) b =>
+    let rec ins : List (String × AppId) → List (String × AppId)
+      | [] => [b]
+      | x :: t => if strLt b.1 x.1 then b :: x :: t else x :: ins t
+    ins acc) []
+  let (parts, _) := sorted.foldl (fun (acc : List String × List Nat) b =>
+    let perms := match s.cls b.2.id with
+      | some c => Grp.allPerms (Snap.group c)
+      | none => []
+    let cands := if perms.isEmpty then [b.2.m] else perms.map fun p => SlotMap.composePartial p b.2.m
+    let rendered := cands.map fun m => renderArgs pslots m acc.2
+    let best := rendered.foldl (fun (bst : Option (String × List Nat)) r =>
+      match bst with
+      | none => some r
+      | some b0 => if strLt r.1 b0.1 then some r else some b0) none
+    match best with
+    | some (txt, num') => (acc.1 ++ [s!"{b.1}=@{b.2.id}[{txt}]"], num')
+    | none => (acc.1 ++ [s!"{b.1}=@{b.2.id}[]"], acc.2)) ([], [])
+  "&".intercalate parts
+
+def canonMatches (s : Snap) (p : MPat) (ms : List (List (String × AppId))) : String :=
+  let strs := ms.map (canonMatch s (patSlots p))
+  let sorted := strs.foldl (fun (acc : List String) x =>
+    let rec ins : List String → List String
+      | [] => [x]
+      | y :: t => if x == y then y :: t else if strLt x y then x :: y :: t else y :: ins t
+    ins acc) []
+  s!"{sorted.length}:" ++ "/".intercalate sorted
+
 def showOptApp : Option AppId → String
   | some a => showApp a
   | none => "none"
@@ -141,6 +196,10 @@ def snapQuery (sig : Sig) (s : Snap) (q : String) : String :=
     (match Snap.compressAll s.uf (if is = "-" then [] else (is.splitOn ",").map nat!) with
      | some uf' => ",".intercalate (uf'.map showApp)
      | none => "panic")
+  | ["ematch", p] =>
+    -- the set of matches of the single-pattern matcher, modulo fresh names and class symmetries
+    let pat := parseMPat p
+    canonMatches s pat (EMatch.ematchAll s pat 1000000).1
   | ["count", i] => (match s.cls (nat! i) with | some c => toString (Grp.count (Snap.group c)) | none => "none")
   | _ => "bad-query"
 
